@@ -109,26 +109,36 @@ Key2(cs, b) == LET I == {i \in 1..Len(cs.keys) : cs.keys[i][1] = b} IN IF I = {}
 Glyph2(cs, k, j, mod) ==       \* entry j (0-based) of subheader k (0-based)
   LET s == cs.subs[k + 1]  g == Word2(cs, 4 * k + 3 + s.roff \div 2 + j) IN
   IF g = 0 THEN 0 ELSE IF mod THEN Mod16(g + s.delta) ELSE g + s.delta
+HighBytes(cs) == {cs.keys[i][1] : i \in 1..Len(cs.keys)}          \* the bytes whose key is not 0
+BytesOf(cs, k) == IF k = 0 THEN (0..255) \ HighBytes(cs) ELSE {cs.keys[i][1] : i \in {j \in 1..Len(cs.keys) : cs.keys[j][2] = k}}
 RefPairs2(cs) ==
   {<<b, Glyph2(cs, 0, b - cs.subs[1].first, TRUE)>> :
-      b \in {x \in 0..255 : Key2(cs, x) = 0 /\ x >= cs.subs[1].first /\ x < cs.subs[1].first + cs.subs[1].count}}
+      b \in (cs.subs[1].first..(cs.subs[1].first + cs.subs[1].count - 1)) \ HighBytes(cs)}
   \cup UNION {{<<b * 256 + cs.subs[Key2(cs, b) + 1].first + j, Glyph2(cs, Key2(cs, b), j, TRUE)>> :
-                  j \in 0..(cs.subs[Key2(cs, b) + 1].count - 1)} : b \in {x \in 0..255 : Key2(cs, x) # 0}}
+                  j \in 0..(cs.subs[Key2(cs, b) + 1].count - 1)} : b \in HighBytes(cs)}
 
 Unicode(p, e) == p = 0 \/ (p = 3 /\ e \in {1, 10})
 Supported(fmt) == fmt \in {0, 2, 4}
 \* later subtables overwrite earlier ones character by character
 Merge(ps, qs) == {p \in ps : ~\E q \in qs : q[1] = p[1]} \cup qs
-RECURSIVE RefDir(_, _)
-RefDir(subs, n) == IF n = 0 THEN {}
-                   ELSE IF Unicode(subs[n].p, subs[n].e) /\ Supported(subs[n].fmt)
-                        THEN Merge(RefDir(subs, n - 1), subs[n].pairs) ELSE RefDir(subs, n - 1)
+\* A font may carry several Unicode subtables.  OpenType lets a consumer pick one of them; the code merges them
+\* character by character.  Either is accepted: what is handed out must be defined by SOME usable subtable (DirSound)
+\* and must cover at least one usable subtable completely (DirComplete).
+Usable(s) == Unicode(s.p, s.e) /\ Supported(s.fmt)
+DirUnion(subs) == UNION {subs[i].pairs : i \in {j \in 1..Len(subs) : Usable(subs[j])}}
+Glyphs(ps) == {p[2] : p \in ps}
+DirOK(res, cs) ==
+  LET U == IF cs.hascmap THEN DirUnion(cs.subs) ELSE {} IN
+  IF U = {} THEN res.err = "CMapNotFound"
+  ELSE /\ res.err = "none" /\ res.pairs \subseteq U
+       /\ \E i \in 1..Len(cs.subs) : Usable(cs.subs[i]) /\ cs.subs[i].pairs # {}
+                                       /\ Glyphs(cs.subs[i].pairs) \subseteq Glyphs(res.pairs)
 
 NonZero(ps) == {p \in ps : p[2] # 0}
 RefPairs(cs) == CASE cs.kind = "f4" -> NonZero({<<c, RefGlyph4(cs, c)>> : c \in Codes4(cs)})
                   [] cs.kind = "f0" -> NonZero({<<c, cs.table[c]>> : c \in DOMAIN cs.table})
                   [] cs.kind = "f2" -> NonZero(RefPairs2(cs))
-                  [] cs.kind = "dir" -> IF cs.hascmap THEN NonZero(RefDir(cs.subs, Len(cs.subs))) ELSE {}
+                  [] cs.kind = "dir" -> IF cs.hascmap THEN DirUnion(cs.subs) ELSE {}
 \* the encoder is right: decoding what it produced gives the map back (on the mapped codes)
 RoundTrip(cs) == cs.kind \in {"f4", "f0", "f2"} =>
                    {p \in RefPairs(cs) : p[1] # 65535} = {<<c, cs.map[c]>> : c \in {x \in DOMAIN cs.map : cs.map[x] # 0}}
@@ -150,12 +160,12 @@ SegInMem(cs, i, dev) ==
 
 SubPairs(cs, k, dev) ==      \* subheader k (0-based)
   LET s == cs.subs[k + 1]
-      B == {b \in 0..255 : Key2(cs, b) = k}
+      B == BytesOf(cs, k)
       G(j) == Glyph2(cs, k, j, "F2NoModulo" \notin dev)
       J == 0..(s.count - 1) IN
   IF k = 0 /\ "F2SingleHigh" \notin dev
   THEN \* subheader 0 serves the single-byte codes (a byte that starts two-byte codes is not one of them)
-       {<<s.first + j, G(j)>> : j \in {x \in J : Key2(cs, s.first + x) = 0}}
+       {<<s.first + j, G(j)>> : j \in {x \in J : (s.first + x) \notin HighBytes(cs)}}
   ELSE LET highs == IF B = {} THEN (IF "F2OneHigh" \in dev THEN {0} ELSE {})
                     ELSE IF k = 0 \/ "F2OneHigh" \in dev THEN {SetMax(B)} ELSE B IN
        {<<h * 256 + s.first + j, G(j)>> : h \in highs, j \in J}
@@ -169,7 +179,8 @@ Step(m, cs, dev) ==
     [] cs.kind = "f2" -> [m EXCEPT !.i = i, !.pairs = Merge(m.pairs, SubPairs(cs, i - 1, dev))]
     [] cs.kind = "dir" -> LET s == cs.subs[i] IN
          IF ~Unicode(s.p, s.e) THEN [m EXCEPT !.i = i]
-         ELSE IF Supported(s.fmt) THEN [m EXCEPT !.i = i, !.pairs = Merge(m.pairs, s.pairs)]
+         ELSE IF Supported(s.fmt)     \* dict.update: every character the subtable assigns, glyph 0 included
+              THEN [m EXCEPT !.i = i, !.pairs = Merge(m.pairs, s.pairs \cup {<<c, 0>> : c \in s.zeros})]
          ELSE IF "BadFormatAsserts" \in dev THEN [m EXCEPT !.err = "AssertionError", !.pc = "done"]
          ELSE [m EXCEPT !.i = i]
 \* what create_unicode_map hands out: the pairs with a glyph, or CMapNotFound when there is none
